@@ -569,7 +569,7 @@ func seedFor(t *rapid.T, name string) []byte {
 		if rapid.Bool().Draw(t, "wild") {
 			mode = lookups.Wild
 		}
-		allow := lookups.AllFormats(kind)
+		allow := lookups.AllEncodableFormats(kind)
 		ir := lookups.GenInfo(env, lookups.Options{Kind: kind, Mode: mode, MinLookups: 1, MaxLookups: 5, Allow: allow, Unimplemented: true}, lookups.InfoOptions{}).Draw(t, "info")
 		var out []byte
 		if guard.Try(func() { out = ir.Info.Encode() }) != nil {
